@@ -24,7 +24,7 @@ M_OPTS = [None, [], ["443:8081"], ["443:8081", "8443:9000"], ["443:8081,", "8443
 
 def describe(tier):
     return {
-        "rule": f"{len(P_OPTS)} -p lists x {len(M_OPTS)} -m variants (absent, bare, pairs with and without trailing commas, identity pairs, pairs naming a client port) x 12 "
+        "rule": f"{len(P_OPTS)} -p lists x {len(M_OPTS)} -m variants (absent, bare, pairs with and without trailing commas, identity pairs, pairs naming a client port, the server port mapped to the client's own port number) x 19 "
                 "connections (TLS and QUIC to each of 8 server ports incl. 1 and 65535, two pairs sharing one client endpoint, client port 44330 to 443, 8443 <-> 8443) in one capture, IPv4 and IPv6 (thorough: further TLS versions). "
                 "non-trivial: a configuration in which at least one flow is exported on a port different from another flow's; "
                 "distinct = distinct (configuration, flow)",
